@@ -107,6 +107,16 @@ func ASTFeatures(m *d2ast.Map, text string) []string {
 		}
 	}
 	walkMap(m, true)
+	if strings.Contains(text, "\\\r\n") {
+		// a backslash before CR LF is not a line continuation for the parser (it escapes the CR); Format prints
+		// `\` + LF, which IS one
+		set["text:backslash-crlf"] = true
+	}
+	if strings.Contains(text, "\r\n") && set["block-string"] {
+		// the CR of a CRLF line ending stays inside block-string lines: an "empty" line is `\r`, which the printer
+		// indents again on every pass
+		set["text:crlf-block-string"] = true
+	}
 	out := make([]string, 0, len(set))
 	for k := range set {
 		out = append(out, k)
